@@ -90,6 +90,13 @@ type Case struct {
 
 	// signatures made for the payload carrying THIS extra instead of Extra (payload tamper, old signatures kept)
 	SigExtra *string `json:"sig_extra,omitempty"`
+	// lock state of the spent outputs: preset per input (0 none, 1 this payload hash, 2 another hash),
+	// the fork flag of the validation, and what is locked AFTER an accepted validation
+	// ("all": VersionedTransaction.LockInputs; "some": the inputs LockSel; "other": all, for another hash)
+	Locks     []int  `json:"locks,omitempty"`
+	Fork      bool   `json:"fork,omitempty"`
+	LockAfter string `json:"lock_after,omitempty"`
+	LockSel   []int  `json:"lock_sel,omitempty"`
 	// op memo: steps run one after the other in one process; the order is the point
 	Steps []Case `json:"steps,omitempty"`
 }
@@ -140,6 +147,9 @@ func newPriv(r *vh.Rand) crypto.Key { return crypto.NewKeyFromSeed(r.Bytes(64)) 
 // is recorded with the WHOLE history as its replay, because the order of the steps is the input.
 var replayAs any
 
+// memoLocks: the lock table shared by the steps of one history (nil outside a history)
+var memoLocks map[string]crypto.Hash
+
 func fail(c *vh.Ctx, sig, what string, js any) {
 	if replayAs != nil {
 		js = replayAs
@@ -179,19 +189,25 @@ func resUnit(d string) string {
 type store struct {
 	raw   map[string][]byte               // fresh decoding on every read (as storage/badger_utxo.go does)
 	alias map[string]*common.UTXOWithLock // alias kind: objects handed out as they are
+	locks map[string]crypto.Hash          // LockHash per UTXO, written by LockUTXOs as storage/badger_utxo.go does
 }
 
 func skey(h crypto.Hash, i uint) string { return fmt.Sprintf("%s:%d", h.String(), i) }
 
 func (s *store) ReadUTXOLock(hash crypto.Hash, index uint) (*common.UTXOWithLock, error) {
 	if u, ok := s.alias[skey(hash, index)]; ok {
+		u.LockHash = s.locks[skey(hash, index)]
 		return u, nil
 	}
 	b, ok := s.raw[skey(hash, index)]
 	if !ok {
 		return nil, nil
 	}
-	return common.UnmarshalUTXO(b)
+	u, err := common.UnmarshalUTXO(b)
+	if err == nil && u != nil {
+		u.LockHash = s.locks[skey(hash, index)]
+	}
+	return u, err
 }
 func (s *store) ReadTransaction(crypto.Hash) (*common.VersionedTransaction, string, error) {
 	return nil, "", nil
@@ -200,7 +216,18 @@ func (s *store) ReadDepositLock(*common.DepositData) (crypto.Hash, error) { retu
 func (s *store) ReadLastMintDistribution(uint64) (*common.MintDistribution, error) {
 	return nil, nil
 }
-func (s *store) LockUTXOs([]*common.Input, crypto.Hash, bool) error            { return nil }
+func (s *store) LockUTXOs(inputs []*common.Input, tx crypto.Hash, fork bool) error {
+	for _, in := range inputs {
+		cur := s.locks[skey(in.Hash, in.Index)]
+		if cur.HasValue() && cur != tx && !fork {
+			return fmt.Errorf("utxo locked for transaction %s", cur)
+		}
+	}
+	for _, in := range inputs {
+		s.locks[skey(in.Hash, in.Index)] = tx
+	}
+	return nil
+}
 func (s *store) LockDepositInput(*common.DepositData, crypto.Hash, bool) error { return nil }
 func (s *store) LockMintInput(*common.MintData, crypto.Hash, bool) error       { return nil }
 func (s *store) LockGhostKeys([]*crypto.Key, crypto.Hash, bool) error          { return nil }
@@ -223,7 +250,10 @@ type built struct {
 func assetID() crypto.Hash { return crypto.Blake3Hash([]byte("c02-asset")) }
 
 func buildBase(cs Case, extra []byte) *built {
-	b := &built{st: &store{raw: map[string][]byte{}, alias: map[string]*common.UTXOWithLock{}}}
+	b := &built{st: &store{raw: map[string][]byte{}, alias: map[string]*common.UTXOWithLock{}, locks: map[string]crypto.Hash{}}}
+	if memoLocks != nil {
+		b.st.locks = memoLocks // lock state written by earlier steps of the history
+	}
 	for _, p := range cs.Privs {
 		b.privs = append(b.privs, keyFromHex(p))
 	}
@@ -433,6 +463,21 @@ func runAuth(cs Case, extra []byte, sigExtra []byte, useSigExtra bool, mutate fu
 		out.hook, out.full = "panic", "panic"
 		return out, b, h, nil, nil, nil
 	}
+	otherLock := crypto.Blake3Hash(append([]byte("c02-other-lock"), h[:]...))
+	for i, l := range cs.Locks {
+		if i >= len(b.tx.Inputs) {
+			break
+		}
+		k := skey(b.tx.Inputs[i].Hash, b.tx.Inputs[i].Index)
+		switch l {
+		case 0:
+			delete(b.st.locks, k)
+		case 1:
+			b.st.locks[k] = h
+		default:
+			b.st.locks[k] = otherLock
+		}
+	}
 	signH := h
 	if useSigExtra {
 		sb := buildBase(cs, sigExtra)
@@ -457,7 +502,7 @@ func runAuth(cs Case, extra []byte, sigExtra []byte, useSigExtra bool, mutate fu
 	}
 	var err error
 	pan, _ = vh.Catch(func() {
-		err = common.VerifC02ValidateInputs(&ver.SignedTransaction, b.st, h, txType, false)
+		err = common.VerifC02ValidateInputs(&ver.SignedTransaction, b.st, h, txType, cs.Fork)
 	})
 	out.hook = decision(pan, err)
 	out.full = "n/a"
@@ -466,7 +511,7 @@ func runAuth(cs Case, extra []byte, sigExtra []byte, useSigExtra bool, mutate fu
 		v2 := b.tx.AsVersioned()
 		v2.SignaturesMap = ver.SignaturesMap
 		v2.AggregatedSignature = ver.AggregatedSignature
-		pan, _ = vh.Catch(func() { err = v2.Validate(b.st, 1700000000000000000, false) })
+		pan, _ = vh.Catch(func() { err = v2.Validate(b.st, 1700000000000000000, cs.Fork) })
 		out.full = decision(pan, err)
 	}
 	return out, b, h, ver.SignaturesMap, ents, ver.AggregatedSignature
@@ -499,6 +544,42 @@ func runInputs(c *vh.Ctx, cs Case) {
 		sigID[s] = len(sigID) + 1
 		return sigID[s]
 	}
+	lockID := make([]int, len(cs.Inputs)) // as validateInputs saw it (before any LockAfter)
+	for i := range cs.Inputs {
+		if i < len(b.tx.Inputs) {
+			cur := b.st.locks[skey(b.tx.Inputs[i].Hash, b.tx.Inputs[i].Index)]
+			switch {
+			case !cur.HasValue():
+			case cur == h:
+				lockID[i] = 1
+			default:
+				lockID[i] = 2
+			}
+		}
+	}
+	if cs.LockAfter != "" && out.hook == "accept" {
+		// what the kernel does with a validated transaction: lock its inputs for the payload hash
+		v := b.tx.AsVersioned()
+		var lerr error
+		switch cs.LockAfter {
+		case "all":
+			lerr = v.LockInputs(b.st, cs.Fork)
+		case "some":
+			var sel []*common.Input
+			for _, i := range cs.LockSel {
+				if i < len(b.tx.Inputs) {
+					sel = append(sel, b.tx.Inputs[i])
+				}
+			}
+			lerr = b.st.LockUTXOs(sel, h, cs.Fork)
+		case "other":
+			lerr = b.st.LockUTXOs(b.tx.Inputs, crypto.Blake3Hash(append([]byte("c02-other-lock"), h[:]...)), true)
+		}
+		if lerr != nil {
+			c.Note("lock after validation refused: " + lerr.Error())
+		}
+		c.Count("lock-after-" + cs.LockAfter)
+	}
 	var usT []string
 	flat := 0
 	for i, in := range cs.Inputs {
@@ -512,7 +593,7 @@ func runInputs(c *vh.Ctx, cs Case) {
 			flat++
 		}
 		sb, _ := hex.DecodeString(in.Script)
-		usT = append(usT, fmt.Sprintf("(%s, %s, %s)", vh.ZI(int64(in.Type)), vh.List(ks, "(N * N)"), vh.Bytes(sb)))
+		usT = append(usT, fmt.Sprintf("(%s, %s, %s, %s)", vh.ZI(int64(in.Type)), vh.List(ks, "(N * N)"), vh.Bytes(sb), vh.NU(uint64(lockID[i]))))
 	}
 	vt := map[[2]int]bool{}
 	var vtab []string
@@ -597,8 +678,8 @@ func runInputs(c *vh.Ctx, cs Case) {
 			}
 		}
 	}
-	coq := vh.App("CInputs", vh.List(usT, "(Z * list (N * N) * list N)"), vh.List(sigsT, "(list (N * option N))"),
-		agT, vh.ZI(txType), vh.List(vtab, "(N * N)"), vh.Bool(aggok), resUnit(out.hook))
+	coq := vh.App("CInputs", vh.List(usT, "(Z * list (N * N) * list N * N)"), vh.List(sigsT, "(list (N * option N))"),
+		agT, vh.ZI(txType), vh.Bool(cs.Fork), vh.List(vtab, "(N * N)"), vh.Bool(aggok), resUnit(out.hook))
 	nontrivial := out.hook == "accept" || structOK
 	emit(c, cs.Kind, key, nontrivial, cs, coq)
 	c.Count("hook-" + out.hook)
@@ -1212,7 +1293,8 @@ func runAggV(c *vh.Ctx, cs Case) {
 
 func runMemo(c *vh.Ctx, cs Case) {
 	replayAs = cs
-	defer func() { replayAs = nil }()
+	memoLocks = map[string]crypto.Hash{}
+	defer func() { replayAs = nil; memoLocks = nil }()
 	c.Count(cs.Kind)
 	for _, st := range cs.Steps {
 		run(c, st)
@@ -1250,7 +1332,9 @@ func main() {
 		"Script.Validate; Verify/BatchVerify entries with known discrete logs plus small-order, mixed-order and non-canonical encodings. " +
 		"linear-cancellation families (s_i+d_i or R_i+d_i*B with the d_i cancelling for equal / period-2 / small guessed batch coefficients), through BatchVerify and through Validate on multisig inputs; " +
 		"histories in one process (genuine transaction / signature 1-3 times, then every single-signature, payload and signer-list tamper each followed by the " +
-		"genuine one again, and the control order tampered-first), through Validate and through Verify/BatchVerify/AggregateVerify. " +
+		"genuine one again, and the control order tampered-first), through Validate and through Verify/BatchVerify/AggregateVerify; " +
+		"lock histories (accepted transaction, its inputs then locked in the store for the payload hash / some of them / for another hash with fork, " +
+		"then the same payload with flipped, random, missing, wrong-payload signatures or a random aggregate, then the honest one again). " +
 		"Non-trivial = the structural stage passed (signature verification was reached) or the case was accepted; distinct by the whole scenario."
 	if c.Replay != "" {
 		var cs Case
